@@ -122,6 +122,171 @@ def record_table(chk, tbl):
 
 
 # --------------------------------------------------------------------------
+# correspondence of the alias model's operational semantics with the real objects:
+# random interleavings of construct / update / state / set_state / reset on 2-3 real
+# proposals of every measured variant; after every operation the partition of ALL
+# references (live attributes, stored initial values, entries of every state object)
+# into shared arrays, observed with numpy.shares_memory, must be the partition the model
+# computes from the measured spec bits.  Oracle inputs: which attributes an update wrote,
+# which attributes are born sharing an array.
+# --------------------------------------------------------------------------
+
+def _partition_text(fields, samplers, snaps, nk):
+    import numpy
+    classes = []          # representative arrays
+
+    def cid(obj):
+        if isinstance(obj, numpy.ndarray):
+            for i, rep in enumerate(classes):
+                if isinstance(rep, numpy.ndarray) and numpy.shares_memory(rep, obj):
+                    return i
+        classes.append(obj if isinstance(obj, numpy.ndarray) else None)
+        return len(classes) - 1
+
+    out = []
+    for s in sorted(samplers):
+        prop, ipp = samplers[s]
+        toks = []
+        for f in fields:
+            toks.append('c%d' % cid(prop.__dict__[f['attr']]))
+            if f['reset'] in ('alias', 'copy') and f['attr'] in ipp:
+                toks.append('i%d' % cid(ipp[f['attr']]))
+            else:
+                toks.append('i-')
+        out.append('s%d: %s' % (s, ' '.join(toks)))
+    for s in sorted(samplers):
+        for k in range(nk):
+            if (s, k) not in snaps:
+                continue
+            obj, keys = snaps[(s, k)]
+            toks = [('%d' % cid(obj[keys[f['attr']]])) if f['attr'] in keys else '-' for f in fields]
+            if any(t != '-' for t in toks):
+                out.append('snap%d.%d: %s' % (s, k, ' '.join(toks)))
+    return ' | '.join(out)
+
+
+def _alias_case(row, build, rng, cid):
+    """Drive real proposals; return (protocol lines, expected output lines)."""
+    import numpy
+    import gen_alias
+    fields = sorted(row['fields'], key=lambda f: (not f['inplace'], f['attr']))
+    lines = ['case %d' % cid]
+    expect = ['case %d' % cid]
+    for f in fields:
+        lines.append('field %s %d %d %d %d %d %d %d %s' % (
+            f['attr'], f['adapted'], f['inplace'], f['hot'], f['inState'], f['liveInState'], f['aliasedByLoad'],
+            f['storeAliases'], f['reset']))
+    ns = rng.choice([2, 3])
+    chains, samplers, snaps, nsnap = {}, {}, {}, {}
+    NK = 4
+
+    def dump():
+        lines.append('dump %d %d' % (ns, NK))
+        expect.append(_partition_text(fields, samplers, snaps, NK))
+
+    for s in range(ns):
+        ch, prop, _ = build(seed=11 + s)
+        raw = prop.__dict__.get('_initial_proposal_params') or {}
+        ipp = {(k if k in prop.__dict__ or '_' + k not in prop.__dict__ else '_' + k): v for k, v in raw.items()}
+        chains[s], samplers[s], nsnap[s] = ch, (prop, ipp), 0
+        shares = []
+        for j, f in enumerate(fields):
+            sh = '-'
+            cur = prop.__dict__[f['attr']]
+            if f['hot'] and isinstance(cur, numpy.ndarray):
+                for j0 in range(j):
+                    other = prop.__dict__[fields[j0]['attr']]
+                    if fields[j0]['inplace'] and isinstance(other, numpy.ndarray) and numpy.shares_memory(cur, other):
+                        sh = str(j0)
+                        break
+            shares.append(sh)
+        lines.append('new %d %s' % (s, ' '.join(shares)))
+        expect.append('ok new')
+    dump()
+    nops = rng.choice([6, 9, 12])
+    for _ in range(nops):
+        s = rng.randrange(ns)
+        prop, ipp = samplers[s]
+        kind = rng.choice(['upd', 'upd', 'upd', 'snap', 'load', 'reset'])
+        if kind == 'upd':
+            before = [(prop.__dict__[f['attr']], gen_alias.vdigest(prop.__dict__[f['attr']])) for f in fields]
+            with numpy.errstate(all='ignore'):
+                chains[s].step()
+            mask = []
+            for f, (obj, dg) in zip(fields, before):
+                now = prop.__dict__[f['attr']]
+                wrote = (now is not obj and isinstance(now, numpy.ndarray)) or gen_alias.vdigest(obj) != dg or \
+                        gen_alias.vdigest(now) != dg
+                mask.append('1' if wrote else '0')
+            lines.append('upd %d %s' % (s, ' '.join(mask)))
+            expect.append('ok upd')
+        elif kind == 'snap' and nsnap[s] < NK:
+            obj = prop.state
+            keys = {}
+            for key in obj:
+                a = gen_alias.attr_of_key(prop, key)
+                if a is not None:
+                    keys[a] = key
+            snaps[(s, nsnap[s])] = (obj, keys)
+            lines.append('snap %d %d' % (s, nsnap[s]))
+            expect.append('ok snap')
+            nsnap[s] += 1
+        elif kind == 'load' and snaps:
+            src, k = rng.choice(sorted(snaps))
+            prop.set_state(snaps[(src, k)][0])
+            lines.append('load %d %d %d' % (s, src, k))
+            expect.append('ok load')
+        elif kind == 'reset' and row.get('adaptive') and prop.nsteps >= 1:
+            prop._reset_adaptation()
+            lines.append('reset %d' % s)
+            expect.append('ok reset')
+        else:
+            continue
+        dump()
+    return lines, expect
+
+
+def correspondence(chk, per_variant):
+    """Returns (divergences, number of cases, number of compared partitions)."""
+    import random
+    import numpy
+    import gen_alias
+    rng = random.Random(chk.seed * 7919 + 1601)
+    cases, cid = [], 0
+    builders = {v: b for v, _, b in gen_alias.variants()}
+    with numpy.errstate(all='ignore'):
+        rows = [r for r in gen_alias.rows() if 'fields' in r and r['fields'] and builders.get(r['name'])]
+        for r in rows:
+            for _ in range(per_variant):
+                cid += 1
+                try:
+                    cases.append((r['name'], cid) + _alias_case(r, builders[r['name']], rng, cid))
+                except Exception as e:       # the real code raised inside a step: case not evaluated
+                    chk.notes.append('alias correspondence case on %s not evaluated: %r' % (r['name'], e))
+    lines = [l for c in cases for l in c[2]]
+    p = subprocess.run(['lake', 'env', 'lean', '--run', 'DriverAlias.lean'], cwd=common.LEAN_DIR,
+                       input='\n'.join(lines) + '\n', stdout=subprocess.PIPE, stderr=subprocess.PIPE, text=True,
+                       timeout=1800)
+    if p.returncode != 0:
+        return [dict(variant='<driver>', index=0, model_line=p.stderr[-400:], real_line='', protocol=[])], len(cases), 0
+    got = p.stdout.splitlines()
+    divs, pos, ncmp = [], 0, 0
+    for name, cid, proto, expect in cases:
+        mine = got[pos:pos + len(expect)]
+        pos += len(expect)
+        for i, (m, e) in enumerate(zip(mine + ['<model output ended>'] * (len(expect) - len(mine)), expect)):
+            ncmp += 1
+            if m != e:
+                divs.append(dict(variant=name, index=i, model_line=m, real_line=e, protocol=proto))
+                break
+    chk.coverage['alias_correspondence'] = dict(
+        cases=len(cases), partitions_compared=ncmp, variants=len(rows), diverging=len(divs),
+        what='partition of all array references (live attributes, stored initial values, state entries) after every '
+             'operation: numpy.shares_memory on the real objects vs the model run on the measured spec bits')
+    if cases:
+        chk.samples.append({'alias_protocol_head': cases[0][2][:8], 'expected_head': cases[0][3][:4]})
+    return divs, len(cases), ncmp
+
 
 def summarise(chk, units, results):
     hist = dict(kind={}, suite={}, family={}, mode={})
@@ -158,7 +323,8 @@ def summarise(chk, units, results):
 def run(chk, tier, proof_ok):
     tbl = table_obligations('C16', chk)
     record_table(chk, tbl)
-    full = tier == 'thorough' or not proof_ok or bool(tbl['failed'])
+    divs, _, _ = correspondence(chk, 2 if tier == 'quick' else 12)
+    full = tier == 'thorough' or not proof_ok or bool(tbl['failed']) or bool(divs)
     units = alias.c16_cases(chk.seed, tier, full)
     procs = min(16, os.cpu_count() or 1)
     results = alias.run_units(units, procs)
@@ -177,9 +343,14 @@ def run(chk, tier, proof_ok):
     if tbl['failed']:
         broken.append('table obligations of EpsieProps/C16Table.lean no longer hold: %s; offending entries: %s' % (
             ', '.join(tbl['failed']), '; '.join(tbl['offenders'][:12]) or '<see build log>'))
+    if divs:
+        d = divs[0]
+        broken.append('correspondence suite alias: %d diverging case(s); first on %s at output line %d: model %r vs '
+                      'real %r' % (len(divs), d['variant'], d['index'], d['model_line'][:300], d['real_line'][:300]))
     if broken and not findings and not chk.known_hit:
         chk.violation('unproved', '; '.join(broken)[:1500], {
             'no_longer_checks': broken, 'build_log': tbl['log'][-1500:],
+            'alias_protocol': divs[0]['protocol'] if divs else None,
             'how_to_replay': './check C16 --replay <this file>'}, False)
     elif broken:
         chk.notes.append('broken obligations accompanied by failing inputs on the real code: ' + '; '.join(broken)[:800])
